@@ -321,6 +321,12 @@ func propC03(c *ctx) error {
 		}
 		res.eval(caseKey(cc.rc)+fmt.Sprint(h), true, J{"history": hist, "files": cc.rc.Files})
 	}
+	// chains inside a data-bounded RECURSIVE fragment: every level runs the same nodes (same ids), so the chain record
+	// of an outer level must not be disturbed by an inner level that selects another branch.  Native oracle: a
+	// recursive walk of the tree data.
+	if err := c03Recursive(c, r); err != nil {
+		return err
+	}
 	// random placements from the general generator (chains among other directives), judged against the specification
 	gn := c.n(600, 30000)
 	for i := 0; i < gn; i++ {
@@ -334,6 +340,122 @@ func propC03(c *ctx) error {
 			return err
 		}
 		res.eval(caseKey(rc), impl.Load == "ok", J{"files": rc.Files, "out": trunc(impl.text(), 200)})
+	}
+	return nil
+}
+
+type c03Tree struct {
+	name string
+	kids []*c03Tree
+}
+
+func (t *c03Tree) val() val {
+	ks := []val{}
+	for _, k := range t.kids {
+		ks = append(ks, k.val())
+	}
+	return vMap(kv{"name", vStr(t.name)}, kv{"last", vStr(t.name[len(t.name)-1:])}, kv{"kids", vAnySlice(ks...)})
+}
+
+func genC03Tree(r *rng, d int, name string) *c03Tree {
+	t := &c03Tree{name: name}
+	if d > 0 {
+		for i, n := 0, r.n(3); i < n; i++ {
+			t.kids = append(t.kids, genC03Tree(r, d-1-r.n(2), fmt.Sprintf("%s%d", name, i+1)))
+		}
+	}
+	return t
+}
+
+// c03Recursive: three shapes of a chain whose selected element re-enters the fragment it belongs to.
+func c03Recursive(c *ctx, r *rng) error {
+	res := c.res
+	type shape struct {
+		tpl  string
+		want func(t *c03Tree) string
+	}
+	var wa, wb, wc func(t *c03Tree) string
+	kidsOf := func(f func(*c03Tree) string, t *c03Tree) string {
+		var sb strings.Builder
+		for _, k := range t.kids {
+			sb.WriteString("<x>" + f(k) + "</x>")
+		}
+		return sb.String()
+	}
+	// (a) recursion inside the `if` element; elif / else follow it
+	wa = func(t *c03Tree) string {
+		switch {
+		case len(t.kids) > 0:
+			return "<b><u>" + t.name + "</u>" + kidsOf(wa, t) + "</b>"
+		case strings.HasSuffix(t.name, "2"):
+			return "<i>two</i>"
+		}
+		return "<s>" + t.name + "</s>"
+	}
+	// (b) recursion inside the `elif` element (the `if` is false for inner nodes with kids), else follows
+	wb = func(t *c03Tree) string {
+		switch {
+		case len(t.kids) == 0 && strings.HasSuffix(t.name, "1"):
+			return "<i>one</i>"
+		case len(t.kids) > 0:
+			return "<b>" + kidsOf(wb, t) + "<u>" + t.name + "</u></b>"
+		}
+		return "<s>" + t.name + "</s>"
+	}
+	// (c) two chains in one fragment, recursion inside the else of the first; the second chain follows it
+	wc = func(t *c03Tree) string {
+		out := ""
+		if len(t.kids) == 0 {
+			out = "<i>" + t.name + "</i>"
+		} else {
+			out = "<b>" + kidsOf(wc, t) + "</b>"
+		}
+		if strings.HasSuffix(t.name, "1") {
+			out += "<em>1</em>"
+		} else {
+			out += "<em>n</em>"
+		}
+		return out
+	}
+	shapes := []shape{
+		{`<template :define="node"><b :if="${len(n.kids) > 0}"><u :text="${n.name}">u</u><x :range="_, n : n.kids" :insert="node">x</x></b> <!-- c --><i :elif="${n.last == '2'}">two</i>
+<s :else :text="${n.name}">o</s></template>`, wa},
+		{`<template :define="node"><i :if="${len(n.kids) == 0 && n.last == '1'}">one</i><b :else-if="${len(n.kids) > 0}"><x :range="_, n : n.kids" :insert="node">x</x><u :text="${n.name}">u</u></b><s :else :text="${n.name}">o</s></template>`, wb},
+		{`<template :define="node"><i :if="${len(n.kids) == 0}" :text="${n.name}">o</i><b :else><x :range="_, n : n.kids" :insert="node">x</x></b><em :if="${n.last == '1'}">1</em><em :else>n</em></template>`, wc},
+	}
+	n := c.n(60, 3000)
+	for i := 0; i < n; i++ {
+		sh := shapes[i%len(shapes)]
+		var roots []*c03Tree
+		var rv []val
+		for k, m := 0, 1+r.n(3); k < m; k++ {
+			t := genC03Tree(r, 1+r.n(3), string(rune('a'+k)))
+			roots = append(roots, t)
+			rv = append(rv, t.val())
+		}
+		want := ""
+		for _, t := range roots {
+			want += "<div>" + sh.want(t) + "</div>"
+		}
+		main := `<div :range="_, n : tree" :insert="node">x</div>`
+		files := [][2]string{{"lib", sh.tpl}, {"t", main}}
+		if r.p(50) {
+			files = [][2]string{{"t", main}, {"lib", sh.tpl}}
+		}
+		rc := &renderCase{Files: files, Tpl: "t", Data: vMap(kv{"tree", vAnySlice(rv...)}).j}
+		impl, _, err := compareRender(c, rc, true)
+		if err != nil {
+			return err
+		}
+		res.eval(caseKey(rc), true, J{"files": rc.Files})
+		res.S3Checked++
+		res.Distribution["recursive_chain_cases"]++
+		// blank text / comments between chain elements are printed where they stand (shape a): compare modulo them
+		got := strings.NewReplacer(" <!-- c -->", "", "\n", "").Replace(impl.text())
+		if impl.St != "ok" || got != want {
+			res.violate(rc.toJ(), want, J{"st": impl.St, "out": impl.text(), "err": trunc(impl.Err, 160)},
+				"chain inside a recursive fragment: an inner level disturbed the chain of an outer level (or the wrong branch was rendered)")
+		}
 	}
 	return nil
 }
